@@ -217,7 +217,7 @@ def main():
   seed = int(os.environ.get('VERIF_SEED', '0'))
   rng = random.Random(seed * 1299709 + 5)
   t0 = time.time()
-  n_models = 400 if tier == 'thorough' else 50
+  n_models = 1500 if tier == 'thorough' else 120
   ship = gr.shipped()
   cases = []
   viol = []
